@@ -2,6 +2,8 @@
 
 use crate::mon::Ctx;
 
+pub mod c01;
+pub mod c02;
 pub mod c03;
 pub mod c09;
 pub mod c10;
@@ -18,11 +20,14 @@ pub mod c16_ops;
 pub mod c16_sup;
 pub mod c19;
 pub mod c20;
+pub mod opreg;
 pub mod selftest;
 
 pub fn run(id: &str, ctx: &mut Ctx) -> bool {
     match id {
         "SELF" => selftest::run(ctx),
+        "C01CORE" => c01::run(ctx),
+        "C02" => c02::run(ctx),
         "C03" => c03::run(ctx),
         "C03REPRO" => c03::repro(ctx),
         "C09" => c09::run(ctx),
